@@ -187,6 +187,9 @@ func engineFailure(p *symex.Program, h *ssa.Function, msg string) *harnessResult
 	return &harnessResult{h: h, ex: ex, solver: s}
 }
 
+// writeEvidenceDropped: harness packages left out of this run (see symex.Load), reported in the evidence.
+var writeEvidenceDropped []string
+
 func runCmd(args []string) int {
 	if len(args) < 1 {
 		fmt.Println("usage: gosmt run <property> [--tier quick|thorough]")
@@ -226,6 +229,10 @@ func runCmd(args []string) int {
 			}
 		}
 		hs = f
+	}
+	writeEvidenceDropped = p.Dropped
+	for _, d := range p.Dropped {
+		fmt.Println("   INCONCLUSIVE harness package does not build against this tree (no verdict for its harnesses):", d)
 	}
 	if len(hs) == 0 {
 		fmt.Println("no harnesses for", prop)
@@ -827,6 +834,9 @@ func writeEvidence(prop string, tc tierCfg, seed int64, results []*harnessResult
 	cov["unsupported_paths"] = unsupported
 	cov["fork_points"] = forks
 	cov["harnesses"] = harnessInfo
+	for _, d := range writeEvidenceDropped {
+		incomplete = append(incomplete, "harness package does not build against this tree (no verdict for its harnesses): "+d)
+	}
 	cov["incomplete"] = incomplete
 	cov["untrusted"] = untrusted
 	cov["solver_disagreements"] = disagreements
